@@ -119,6 +119,10 @@ func min(a, b int) int {
 func runC09(c *Ctx) {
 	c.res.Rule = "the taint certificates are Lean theorems over the REGENERATED listings (every instruction of every routine, both architectures, all paths); this run reads the listings back: it runs `go tool asm -S` itself on every assembly file and compares, per routine, the instruction count and the mnemonic histogram with what the translator emitted (a translator that dropped or mangled an instruction would be seen). class = routine. exhaustive over the 29 routines."
 	runListingReadback(c, "listing.readback")
+	// the Go glue around the routines (Props/C09Glue.lean): functional and leakage tie of the regenerated CT-IR
+	rule := c.res.Rule
+	runC09G(c)
+	c.res.Rule = rule + " || Go glue: " + c.res.Rule
 }
 
 func init() { runners["C09"] = runC09 }
